@@ -273,6 +273,11 @@ func checkTypeSystem(c *core.Ctx, orderProp bool) {
 			spec, ok = parseForSpec(each)
 		}
 		if !ok {
+			if doc == nil {
+				// a hand-written case is grammatical: if it no longer parses this check can not judge it, and must say so
+				c.Internal("hand-written type system does not parse: %q", clip(base.String(), 300))
+				return
+			}
 			// the renderer produced something the parser refuses: not a type-system question
 			c.AddExtraInt("cases_not_parsed", 1)
 			return
